@@ -780,6 +780,33 @@ def sync_callback_rule(prog, rep, up, ctors):
     return n
 
 
+def live_handle_rule(prog, rep, units):
+    """A handle known to be live is not simply forgotten: where `X->h = NULL` is executed under the test `X->h != NULL`, a cancel
+    of that handle (a `*_cancel(X->h)` call) comes first.  (Clearing the field without cancelling leaves the timer or event
+    armed with a cookie that the completion then frees.)"""
+    n = 0
+    for up in units:
+        if up not in prog.units:
+            continue
+        u = prog.unit(up)
+        for f in u.funcs:
+            if f.file != up:
+                continue
+            for e in f.all_elems():
+                if not (e.is_assign and e.op == "=" and norm(e.kid(1)) == ("c", 0) and norm(e.kid(0))[0] == "."):
+                    continue
+                h = norm(e.kid(0))
+                live = any(op == "!=" and L == h and R == ("c", 0) for cond, truth in f.edge_conds(e) for op, L, R, _, _ in cond_atoms(cond, truth))
+                if not live:
+                    continue
+                n += 1
+                cancels = [c for c in f.calls() if c.callee and (c.callee.endswith("_cancel") or c.callee.endswith("_free") or c.callee == "free") and any(a is not None and norm(a) == h for a in c.args) and f.dominates(c, e)]
+                rep.check(bool(cancels), "SLOT", "%s: %s is cancelled before the live handle is forgotten" % (f.name, show(h)), e.where,
+                          "`%s` is executed where %s is known not to be NULL, and no cancel of it comes first: the operation stays armed with this request as its cookie"
+                          % (e.text[:40], show(h)), function=f.name, construct="forget-live:" + h[2])
+    return n
+
+
 def closed_fd_rule(prog, rep):
     """A descriptor that has been closed does not stay in the request: after close(C->s) the field is overwritten (with -1
     or the next socket) on every path before the function returns, unless the request itself is released.  The completion
@@ -1216,6 +1243,8 @@ def run(tier):
         n4(prog, rep)
         if sum(sync_callback_rule(prog, rep, up_, (UNITS[up_][2],)) for up_ in UNITS) < 4:
             rep.defer_broken("N7: fewer than 4 request constructors found")
+        if live_handle_rule(prog, rep, list(UNITS)) < 1:
+            rep.defer_broken("SLOT: no live-handle reset found in the request units")
         if failed_register_rule(prog, rep) < 3:
             rep.defer_broken("N3: fewer than 3 tested registrations found in the request units")
         if connect_routing_rule(prog, rep) < 7:
